@@ -153,7 +153,7 @@ def run_tasks(pid, tier, seed, mod):
     if n == 0:
         raise HarnessError('no tasks')
     wall_guard = float(os.environ.get('VERIF_WALL_GUARD',
-                                      '900' if tier == 'quick' else '14400'))
+                                      '300' if tier == 'quick' else '14400'))
     args = [(pid, tier, seed, i) for i in range(n)]
     if NPROC <= 1 or n == 1 or os.environ.get('VERIF_INPROC'):
         return [_run_task(a) for a in args]
